@@ -14,6 +14,8 @@
 #include <kernel/lafem/none_filter.hpp>
 #include <kernel/lafem/unit_filter.hpp>
 #include <kernel/lafem/unit_filter_blocked.hpp>
+#include <kernel/lafem/mean_filter.hpp>
+#include <kernel/lafem/mean_filter_blocked.hpp>
 #include <kernel/util/statistics.hpp>
 #include <kernel/solver/base.hpp>
 #include <memory>
@@ -27,14 +29,30 @@ namespace c08
   namespace LAFEM = FEAT::LAFEM;
 
   // ------------------------------------------------------------------------------------------- truth
-  struct Sys
+  // The filter of a system as the oracle sees it.  fkind 0: none; 1: unit filter (filter_cor == filter_def: the components
+  // in `fixed` are zeroed); 2: mean filter with the primal/dual weighting vectors prim/dual (scalar numbering i*bs+p) and
+  // the per-component volumes vol[p] exactly as handed to FEAT:
+  //   filter_cor = P_cor = I - prim dual^T / vol,   filter_def = P_def = I - dual prim^T / vol
+  // (blocked: independently for every component p over the indices i*bs+p).  For dual not parallel to prim these are two
+  // DIFFERENT oblique projections, so a preconditioner applying the wrong one of the two is visible.
+  struct FilterModel
   {
     Index nb = 0;             // number of block rows
     int bs = 1;               // block size
     Index n = 0;              // scalar dimension nb*bs
+    std::vector<char> fixed;  // n, 1 = component zeroed by filter_cor (unit filter)
+    int fkind = 0;            // 0 none, 1 unit, 2 mean
+    std::vector<LD> prim, dual; // n each (mean filter), values exactly representable in the working precision
+    std::vector<LD> vol;      // bs (mean filter), the volume held by the FEAT filter
+    int mstyle = 0;           // 0: prim == 1, dual few-bit; 1: both few-bit; 2: both arbitrary (float-exact)
+    bool mean_ctor3 = false;  // FEAT filter built by the 3-argument constructor (volume = prim.dual computed by FEAT; exact for few-bit styles)
+    double sol_mean = 0.0;    // irrelevant for filter_cor / filter_def (must not leak into apply)
+  };
+
+  struct Sys : FilterModel
+  {
     std::vector<char> bmask;  // nb*nb, 1 = block stored
     std::vector<LD> a;        // n*n dense values (exactly the values held by the FEAT matrix)
-    std::vector<char> fixed;  // n, 1 = component zeroed by filter_cor
     std::string pattern;
     int vstyle = 0;
     double domf = 2.0;        // row dominance factor |a_ii| >= domf * sum_{j!=i}|a_ij|
@@ -56,8 +74,17 @@ namespace c08
         for(int p = 0; p < bs; ++p) for(int q = 0; q < bs; ++q)
         { vh::J e('['); e.add((unsigned long)(I * bs + p)); e.add((unsigned long)(J * bs + q)); e.add(a[std::size_t(I * bs + p) * n + (J * bs + q)]); tr.add_raw(e.str()); ++cnt; }
       vh::J fx('['); for(Index i = 0; i < n && i < 64; ++i) if(fixed[i]) fx.add((unsigned long)i);
-      return vh::J().kv("n", (unsigned long)n).kv("bs", bs).kv("nnz_blocks", (unsigned long)nnzb()).kv("pattern", pattern)
-        .kv("vstyle", vstyle).kv("domf", domf).raw("filtered", fx.str()).raw("triplets", tr.str()).str();
+      vh::J d; d.kv("n", (unsigned long)n).kv("bs", bs).kv("nnz_blocks", (unsigned long)nnzb()).kv("pattern", pattern)
+        .kv("vstyle", vstyle).kv("domf", domf).raw("filtered", fx.str());
+      if(fkind == 2)
+      {
+        vh::J pj('['), dj('['), vj('[');
+        for(Index i = 0; i < n && i < 48; ++i) { pj.add(prim[i]); dj.add(dual[i]); }
+        for(int p = 0; p < bs; ++p) vj.add(vol[std::size_t(p)]);
+        d.raw("mean_filter", vh::J().kv("style", mstyle).kv("ctor_args", mean_ctor3 ? 3 : 4).kv("sol_mean", sol_mean)
+          .raw("prim", pj.str()).raw("dual", dj.str()).raw("volume", vj.str()).str());
+      }
+      return d.raw("triplets", tr.str()).str();
     }
   };
 
@@ -123,6 +150,7 @@ namespace c08
   inline void gen_filter(vh::Rng& r, Sys& s, bool unit)
   {
     s.unit_filter = unit;
+    s.fkind = unit ? 1 : 0;
     s.fixed.assign(s.n, 0);
     if(!unit) return;
     int kind = int(r.below(6)); // 0: empty, 1: all, else some
@@ -131,6 +159,44 @@ namespace c08
       bool fx = kind == 0 ? false : (kind == 1 ? true : r.coin(0.25));
       for(int p = 0; p < s.bs; ++p) s.fixed[I * s.bs + p] = fx ? 1 : 0;
     }
+  }
+
+  // Mean filter: prim with all entries in [0.5,2] (or constant 1), dual positive in [0.25,3] and NOT proportional to prim
+  // (within every component the ratios dual_i/prim_i spread by a factor >= 1.25 whenever there are two block rows), so
+  // that the volume prim.dual is well away from 0 and P_cor != P_def.  Values are float-exact; the few-bit styles (k/8)
+  // make prim.dual exact in float and double whatever the summation order (<= 300*384/64), so that the volume FEAT's
+  // 3-argument constructor computes is the exact one.
+  inline void gen_mean_filter(vh::Rng& r, Sys& s, bool single_precision)
+  {
+    s.unit_filter = false; s.fkind = 2;
+    s.fixed.assign(s.n, 0);
+    s.mstyle = int(r.below(3));
+    s.mean_ctor3 = s.mstyle != 2 && r.coin(0.5);
+    s.sol_mean = vl::gen_value(r, 0);
+    s.prim.assign(s.n, 1.0L); s.dual.assign(s.n, 1.0L); s.vol.assign(std::size_t(s.bs), 0.0L);
+    const Index bs = Index(s.bs);
+    for(int attempt = 0; ; ++attempt)
+    {
+      for(Index i = 0; i < s.n; ++i)
+      {
+        s.prim[i] = s.mstyle == 0 ? 1.0L : (s.mstyle == 1 ? LD(r.range(4, 16)) / 8.0L : LD(float(r.real(0.5, 2.0))));
+        s.dual[i] = s.mstyle == 2 ? LD(float(r.real(0.25, 3.0))) : LD(r.range(2, 24)) / 8.0L;
+      }
+      if(s.nb < 2) break;
+      if(attempt >= 20)
+      { for(Index p = 0; p < bs; ++p) { s.dual[p] = 0.25L; s.dual[bs + p] = 3.0L; } break; } // ratios <= 0.5 and >= 1.5
+      bool ok = true;
+      for(Index p = 0; p < bs; ++p)
+      {
+        LD lo = 1e300L, hi = 0;
+        for(Index i = p; i < s.n; i += bs) { const LD q = s.dual[i] / s.prim[i]; lo = std::min(lo, q); hi = std::max(hi, q); }
+        if(!(hi >= 1.25L * lo)) ok = false;
+      }
+      if(ok) break;
+    }
+    for(Index i = 0; i < s.n; ++i) s.vol[i % bs] += s.prim[i] * s.dual[i];
+    // the volume handed to FEAT is the rounded one (exact for the few-bit styles); the oracle projects with that value
+    for(auto& v : s.vol) v = single_precision ? LD(float(v)) : LD(double(v));
   }
 
   // a float-exact relaxation parameter for which D/omega + L and D + omega*L stay row diagonally dominant
@@ -154,6 +220,7 @@ namespace c08
     typedef LAFEM::DenseVector<DT_, IT_> Vec;
     typedef LAFEM::NoneFilter<DT_, IT_> NoneF;
     typedef LAFEM::UnitFilter<DT_, IT_> UnitF;
+    typedef LAFEM::MeanFilter<DT_, IT_> MeanF;
     static const char* name() { return "csr"; }
     static DT* mvals(MT& m) { return m.val(); }
     static DT* raw(Vec& v) { return v.elements(); }
@@ -166,6 +233,13 @@ namespace c08
       for(Index i = 0; i < s.nb; ++i) if(s.fixed[i]) f.add(IT(i), DT(vl::gen_value(r, 0)));
       return f;
     }
+    static MeanF make_mean(const Sys& s)
+    {
+      Vec vp(s.nb), vd(s.nb);
+      for(Index i = 0; i < s.n; ++i) { vp.elements()[i] = DT(s.prim[i]); vd.elements()[i] = DT(s.dual[i]); }
+      if(s.mean_ctor3) return MeanF(std::move(vp), std::move(vd), DT(s.sol_mean));
+      return MeanF(std::move(vp), std::move(vd), DT(s.sol_mean), DT(s.vol[0]));
+    }
   };
 
   template<typename DT_, typename IT_, int BS_>
@@ -177,6 +251,7 @@ namespace c08
     typedef LAFEM::DenseVectorBlocked<DT_, IT_, BS_> Vec;
     typedef LAFEM::NoneFilterBlocked<DT_, IT_, BS_> NoneF;
     typedef LAFEM::UnitFilterBlocked<DT_, IT_, BS_> UnitF;
+    typedef LAFEM::MeanFilterBlocked<DT_, IT_, BS_> MeanF;
     static const char* name() { return BS_ == 2 ? "bcsr2" : (BS_ == 3 ? "bcsr3" : "bcsrN"); }
     static DT* mvals(MT& m) { return m.template val<LAFEM::Perspective::pod>(); }
     static DT* raw(Vec& v) { return v.template elements<LAFEM::Perspective::pod>(); }
@@ -192,6 +267,16 @@ namespace c08
         f.add(IT(i), v);
       }
       return f;
+    }
+    static MeanF make_mean(const Sys& s)
+    {
+      Vec vp(s.nb), vd(s.nb);
+      DT* ep = raw(vp); DT* ed = raw(vd);
+      for(Index i = 0; i < s.n; ++i) { ep[i] = DT(s.prim[i]); ed[i] = DT(s.dual[i]); }
+      FEAT::Tiny::Vector<DT, BS_> sm, vol;
+      for(int p = 0; p < BS_; ++p) { sm[p] = DT(s.sol_mean) + DT(p); vol[p] = DT(s.vol[std::size_t(p)]); }
+      if(s.mean_ctor3) return MeanF(std::move(vp), std::move(vd), sm);
+      return MeanF(std::move(vp), std::move(vd), sm, vol);
     }
   };
 
@@ -375,17 +460,81 @@ namespace c08
     else if(exc <= 1e-1L) c.count("excess<=1e-1"); else if(exc <= 1.0L) c.count("excess<=1"); else c.count("excess>1");
   }
 
+  // ------------------------------------------------------------------------------------------- filter model
+  // Mean filter, exact oblique projection in long double  y = x - a (b.x)/vol  per component group (cor: a = prim,
+  // b = dual; def: a = dual, b = prim) with the error majorant of FEAT's evaluation  alpha = -fl(fl(b.x^)/vol),
+  // y^ = fl(x^ + alpha a)  in precision u on an input x^ with |x^ - x| <= K u s,  K = 8(len+4) >= 40, m = entries per group:
+  //   |y^_i - y_i| <= K u s_i                                   (input error)
+  //                 + |a_i|/|vol| K u sum_j |b_j| s_j             (input error through the dot product)
+  //                 + |a_i|/|vol| (m+1) u sum_j |b_j||x_j|        (dot product in any summation order, division)
+  //                 + u (|alpha a_i| + |y_i|)                     (axpy)            + second order terms
+  // =>  S_i = s_i + 2 c_i(s) + (2(m+1)/K + 1/4) c_i(|x|) + |y_i|/4,  c_i(w) = |a_i| sum_j |b_j| w_j / |vol|
+  // (every new term doubled: sound and generous by a constant, nothing fitted to data).
+  inline void mean_project(const FilterModel& f, RefVec& r, bool cor, std::size_t len)
+  {
+    const std::vector<LD>& a = cor ? f.prim : f.dual;
+    const std::vector<LD>& b = cor ? f.dual : f.prim;
+    const Index bs = Index(f.bs);
+    const LD cm = 2.0L * LD(f.nb + 1) / (8.0L * LD(len + 4)) + 0.25L;
+    for(Index p = 0; p < bs; ++p)
+    {
+      LD dot = 0, adot = 0, edot = 0; const LD vol = f.vol[p];
+      for(Index j = p; j < f.n; j += bs) { dot += b[j] * r.v[j]; adot += std::fabs(b[j] * r.v[j]); edot += std::fabs(b[j]) * r.s[j]; }
+      const LD alpha = dot / vol;
+      for(Index i = p; i < f.n; i += bs)
+      {
+        const LD y = r.v[i] - a[i] * alpha; const LD ai = std::fabs(a[i] / vol);
+        r.s[i] = r.s[i] + 2.0L * ai * edot + cm * ai * adot + 0.25L * std::fabs(y);
+        r.v[i] = y;
+      }
+    }
+  }
+
+  // the same majorant for a vector known only through w_j >= |x_j| + s_j (w bounds the magnitude of the input as well as
+  // its error in units of K u): returns W with |y^_i - y_i| <= K u W_i  (|y_i| <= w_i + c_i(w))
+  inline std::vector<LD> mean_majorant(const FilterModel& f, const std::vector<LD>& w, bool cor, std::size_t len)
+  {
+    const std::vector<LD>& a = cor ? f.prim : f.dual;
+    const std::vector<LD>& b = cor ? f.dual : f.prim;
+    const Index bs = Index(f.bs);
+    const LD cm = 2.0L * LD(f.nb + 1) / (8.0L * LD(len + 4)) + 0.25L;
+    std::vector<LD> W(w.size());
+    for(Index p = 0; p < bs; ++p)
+    {
+      LD wdot = 0; const LD vol = f.vol[p];
+      for(Index j = p; j < f.n; j += bs) wdot += std::fabs(b[j]) * w[j];
+      for(Index i = p; i < f.n; i += bs)
+      {
+        const LD ci = std::fabs(a[i] / vol) * wdot;
+        W[i] = w[i] + 2.0L * ci + cm * ci + 0.25L * (w[i] + ci);
+      }
+    }
+    return W;
+  }
+
+  // applies the correction (cor) or defect (!cor) filter of the model to a reference vector and its majorant
+  inline void apply_filter_ref(const FilterModel& f, RefVec& r, bool cor, std::size_t len)
+  {
+    if(f.fkind == 2) { mean_project(f, r, cor, len); return; }
+    for(Index i = 0; i < f.n; ++i) if(f.fixed[i]) { r.v[i] = 0.0L; r.s[i] = 0.0L; }
+  }
+
+  // A reference operator whose exact intermediate or final values leave the range of the working precision marks its
+  // majorant as infinite: nothing can be asserted about such a component (see PolyRef) and the comparisons skip it.
+  inline bool unassertable(LD S) { return S == std::numeric_limits<LD>::infinity(); }
+
   // applies the correction filter to the reference
-  inline void filter_ref(const Sys& s, RefVec& r) { for(Index i = 0; i < s.n; ++i) if(s.fixed[i]) { r.v[i] = 0.0L; r.s[i] = 0.0L; } }
+  inline void filter_ref(const Sys& s, RefVec& r, std::size_t len) { apply_filter_ref(s, r, true, len); }
 
   // worst excess err/bound over all components (no record written)
   template<typename DT_>
-  LD worst_excess(const DT_* got, const RefVec& ref, std::size_t len)
+  LD worst_excess(const DT_* got, const RefVec& ref, std::size_t len, bool skip_inf = false)
   {
     LD worst = 0;
     for(std::size_t i = 0; i < ref.v.size(); ++i)
     {
       const LD g = (LD)got[i]; const LD bd = bound_of<DT_>(ref.s[i], len); const LD err = std::fabs(g - ref.v[i]);
+      if(skip_inf && unassertable(ref.s[i])) continue;
       worst = std::max(worst, (g == g) ? (bd > 0 ? err / bd : (err > 0 ? 1e300L : 0.0L)) : 1e300L);
     }
     return worst;
@@ -393,16 +542,18 @@ namespace c08
 
   template<typename DT_>
   bool compare_vec(vh::Ctx& c, const std::string& op, const char* kind, const char* phase, const DT_* got, const RefVec& ref,
-                   std::size_t len, const std::string& extra = "")
+                   std::size_t len, const std::string& extra = "", bool skip_inf = false)
   {
-    LD worst = 0; Index wi = 0; bool bad = false; const Index n = Index(ref.v.size());
+    LD worst = 0; Index wi = 0; bool bad = false, skipped = false; const Index n = Index(ref.v.size());
     for(Index i = 0; i < n; ++i)
     {
       const LD g = (LD)got[i]; const LD bd = bound_of<DT_>(ref.s[i], len); const LD err = std::fabs(g - ref.v[i]);
+      if(skip_inf && unassertable(ref.s[i])) { skipped = true; continue; }
       LD exc = (g == g) ? (bd > 0 ? err / bd : (err > 0 ? 1e300L : 0.0L)) : 1e300L;
       if(exc > worst || i == 0) { worst = exc; wi = i; }
       if(exc > 1.0L) bad = true;
     }
+    if(skipped) c.count("unasserted:reference-exceeds-range-of-working-precision");
     bucket(c, worst);
     if(bad)
     {
@@ -457,16 +608,16 @@ namespace c08
       { c.viol(op, "status", vh::J().kv("phase", phase).kv("status", int(st)).str()); good = false; }
       if(vl::container_hash(def) != h0) { c.viol(op, "input-modified", vh::J().kv("phase", phase).str()); good = false; }
       RefVec r = ref(to_ld(defv));
-      filter_ref(s, r);
+      filter_ref(s, r, len);
       const DT* g = cor.template elements<LAFEM::Perspective::pod>();
       // classification of a mismatch by the alternative operator (see Alt); the linearity monitor then uses its majorant
       const char* kind = "wrong-value"; RefVec ra; bool use_alt = false;
-      if(alt && worst_excess<DT>(g, r, len) > 1.0L)
+      if(alt && worst_excess<DT>(g, r, len, true) > 1.0L)
       {
-        ra = alt(to_ld(defv)); filter_ref(s, ra);
-        if(worst_excess<DT>(g, ra, len) <= 1.0L) { kind = alt_kind.c_str(); use_alt = true; }
+        ra = alt(to_ld(defv)); filter_ref(s, ra, len);
+        if(worst_excess<DT>(g, ra, len, true) <= 1.0L) { kind = alt_kind.c_str(); use_alt = true; }
       }
-      if(!compare_vec<DT>(c, op, kind, phase, g, r, len, params)) good = false;
+      if(!compare_vec<DT>(c, op, kind, phase, g, r, len, params, true)) good = false;
       if(c.verbose() && s.n <= 12)
       {
         std::printf("apply[%s] phase=%s\n", op.c_str(), phase);
@@ -495,10 +646,11 @@ namespace c08
       {
         comb.v[i] = (LD)a * xu[i] + (LD)b * xv[i];
         comb.s[i] = std::fabs((LD)a) * ru.s[i] + std::fabs((LD)b) * rv.s[i] + rw.s[i];
+        if(unassertable(ru.s[i]) || unassertable(rv.s[i]) || unassertable(rw.s[i])) comb.s[i] = std::numeric_limits<LD>::infinity(); // (0 * inf)
       }
       std::vector<DT> z(s.n); for(Index i = 0; i < s.n; ++i) z[i] = DT(xw[i]);
       c.event();
-      compare_vec<DT>(c, op, "not-linear", phase, z.data(), comb, len, vh::J().kv("a", a).kv("b", b).str());
+      compare_vec<DT>(c, op, "not-linear", phase, z.data(), comb, len, vh::J().kv("a", a).kv("b", b).str(), true);
     }
   };
 
